@@ -1320,6 +1320,22 @@ theorem emitted_triangle_outward (G : Pt → ℝ) (c : ℝ) (p : Pt) (t : Nat ×
   rw [hF]
   exact ⟨key.1, fun h => key.2 ⟨p0, r0 h.1⟩ ⟨p1, r1 h.2.1⟩ ⟨p2, r2 h.2.2⟩⟩
 
+/-- non-vacuity of `emitted_triangle_outward`, strict part: one inside sample at the origin, cutoff 0; the cell at the
+    origin emits the triangle (0, 8, 3) and none of its outside end samples equals the cutoff -/
+example : 0 < V3.Dot (triNormalR (fun q => if q = ((0:Int), (0:Int), (0:Int)) then (-1 : ℝ) else 1) 0 (0, 0, 0) (0, 8, 3))
+    (triOutDirR (fun q => if q = ((0:Int), (0:Int), (0:Int)) then (-1 : ℝ) else 1) 0 (0, 0, 0) (0, 8, 3)) := by
+  have h : cellBits (signOf (fun q => if q = ((0:Int), (0:Int), (0:Int)) then (-1 : ℝ) else 1) 0) (0, 0, 0)
+      = [true, false, false, false, false, false, false, false] := by
+    simp only [cellBits, signOf, padd]
+    norm_num [cornerOff, cubeDataIndexIncrements, ptOfRow]
+  refine (emitted_triangle_outward _ 0 (0, 0, 0) (0, 8, 3) (by rw [h]; decide)).2 ?_
+  rw [h]
+  have e0 : edgeOut [true, false, false, false, false, false, false, false] 0 = (1, 0, 0) := by decide
+  have e8 : edgeOut [true, false, false, false, false, false, false, false] 8 = (0, 1, 0) := by decide
+  have e3 : edgeOut [true, false, false, false, false, false, false, false] 3 = (0, 0, 1) := by decide
+  simp only [e0, e8, e3, padd]
+  norm_num
+
 end orient
 
 /-! ## 10. Signed volume of a closed surface does not depend on the reference point -/
